@@ -119,6 +119,7 @@ struct Trace
 	uint64_t shape = 1469598103934665603ULL;
 	uint64_t n = 0;
 	bool keep = false;
+	bool live = false; // print every record to stderr as it happens (debugging a crash)
 	std::vector<std::string> lines;
 	size_t keep_max = 200000;
 
@@ -140,7 +141,7 @@ struct Trace
 		mixs(h, kind); mixs(shape, kind);
 		for (int64_t v : sv) { mix(h, uint64_t(v)); mix(shape, uint64_t(v)); }
 		for (int64_t v : ev) mix(h, uint64_t(v));
-		if (keep && lines.size() < keep_max)
+		if ((keep && lines.size() < keep_max) || live)
 		{
 			std::string l = kind;
 			l += " [";
@@ -150,7 +151,8 @@ struct Trace
 			first = true;
 			for (int64_t v : ev) { if (!first) l += ' '; first = false; l += std::to_string(v); }
 			l += ")";
-			lines.push_back(std::move(l));
+			if (live) std::fprintf(stderr, "TRACE %s\n", l.c_str());
+			if (keep) lines.push_back(std::move(l));
 		}
 	}
 };
